@@ -36,19 +36,34 @@ func (round *round2) Start() *tss.Error {
 	Pi := round.PartyID()
 	i := Pi.Index
 
-	// check consistency of SSID
-	r1msg := round.temp.dgRound1Messages[0].Content().(*DGRound1Message)
-	SSID := r1msg.UnmarshalSSID()
-	for j, Pj := range round.OldParties().IDs() {
-		if j == 0 || j == i {
-			continue
-		}
+	// check consistency of SSID: every old member must have announced the same value. A member that
+	// deviates from a strict majority is named; without a majority nobody can be singled out.
+	oldIDs := round.OldParties().IDs()
+	ssids := make([][]byte, len(oldIDs))
+	counts := make(map[string]int, 1)
+	for j := range oldIDs {
 		r1msg := round.temp.dgRound1Messages[j].Content().(*DGRound1Message)
-		SSIDj := r1msg.UnmarshalSSID()
-		if !bytes.Equal(SSID, SSIDj) {
-			return round.WrapError(errors.New("ssid mismatch"), Pj)
-		}
+		ssids[j] = r1msg.UnmarshalSSID()
+		counts[string(ssids[j])]++
 	}
+	if len(counts) > 1 {
+		var majority []byte
+		for value, count := range counts {
+			if 2*count > len(ssids) {
+				majority = []byte(value)
+			}
+		}
+		culprits := make([]*tss.PartyID, 0, len(oldIDs))
+		if majority != nil {
+			for j, Pj := range oldIDs {
+				if !bytes.Equal(ssids[j], majority) {
+					culprits = append(culprits, Pj)
+				}
+			}
+		}
+		return round.WrapError(errors.New("ssid mismatch"), culprits...)
+	}
+	SSID := ssids[0]
 	round.temp.ssid = SSID
 
 	// 2. "broadcast" "ACK" members of the OLD committee
